@@ -39,8 +39,17 @@ def check(tier, seed):
                enc('all zero', lambda i, j: 0, lambda i, j: 0, lambda i, j: 0)]
         for t in range(n):
             sks.append(enc('random in-range coefficients', lambda i, j: rng.randrange(-eta, eta + 1), lambda i, j: rng.randrange(-eta, eta + 1), lambda i, j: rng.randrange(-4095, 4097)))
+        # the three byte-string fields rho, K, tr are stored and written back verbatim, whatever they hold: special values (all-00, all-FF,
+        # a single non-zero byte) in each field separately and in all three (a "blank field" repair or a sentinel test shows here)
+        for fname, a, b_ in (('rho', 0, 32), ('K', 32, 64), ('tr', 64, 128), ('rho, K and tr', 0, 128)):
+            for vname, fill in (('all-00', lambda n: bytes(n)), ('all-FF', lambda n: bytes([0xff]) * n), ('00..01', lambda n: bytes(n - 1) + b'\x01'), ('80 00..', lambda n: b'\x80' + bytes(n - 1))):
+                sks.append((f'honest coefficients, {fname} = {vname}', sk[:a] + fill(b_ - a) + sk[b_:]))
         for i, (tag, skb) in enumerate(sks):
-            cases.append({'line': f"sk_rt {s} bytes:{skb.hex()}", 'tag': 'sk ' + tag, 'want': 'ok ' + skb.hex(), 'model': i < 5})
+            cases.append({'line': f"sk_rt {s} bytes:{skb.hex()}", 'tag': 'sk ' + tag, 'want': 'ok ' + skb.hex(), 'model': i < 5 or 'tr = all-00' in tag})
+            if 'honest coefficients' in tag and ('tr = all-00' in tag or 'K = all-FF' in tag):
+                # ... and the deserialised key signs as FIPS 204 does from those very bytes (tr enters mu, K enters rho'')
+                cases.append({'line': f"sign {s} pure bytes:{skb.hex()} {hx(b'field values')} - ok:{'00' * 32}", 'tag': 'sign with sk ' + tag.split(', ')[1],
+                              'want': 'ok ' + R.sign(p, skb, b'field values', b'', 'pure', bytes(32)).hex() + ' calls=tryfill32', 'model': False})
         # --- a generated key that is serialised and deserialised is the *same struct* (hence behaves identically)
         for j in range(3 if tier == 'quick' else 40):
             xj = bytes(rng.randrange(256) for _ in range(32))
